@@ -165,7 +165,7 @@ func Analyze(prog *Program, res *RunResult, cfg RunCfg, removed map[string]bool)
 		}
 		c.RefAfter = st
 		c.Ctl = ctl
-		if c.RefErrAt < 0 {
+		if c.RefErrAt < 0 && c.Completed {
 			for n := range ctl.Retracted {
 				retracted[n] = true
 			}
@@ -568,6 +568,9 @@ func MonControl(a *Analysis) []Violation {
 			}
 		}
 		if c.Ctl != nil && c.Ctl.Complete && c.RefErrAt < 0 && len(c.SetRules) > 0 {
+			if !c.Completed && ctxEnded(a) {
+				continue // the firing was stopped by cancellation before its action list ran (C15)
+			}
 			completeAt = i
 			if !c.Completed {
 				vs = append(vs, Violation{"ControlEffects", c.N, c.SetRules[0], "action list with Complete() did not run to its end"})
